@@ -24,7 +24,8 @@ RICH = Schema('M1', [
     Opt('sec', 'kv', 'K', sub=[Opt('str', 'k0', '', b'v0')]),
     Opt('func', 'fn', '', None, 'u'), Opt('func', 'include', '', None, 'i'),
     Opt('ptr', 'p', '', None, 'pf'), Opt('ptr', 'pl', 'L', None, 'pf'),
-    Opt('int', 'dep', 'D', 3), Opt('int', 'drop', 'LDX', [b'1']), Opt('int', 'cbi', '', 2, 'pvw'), Opt('str', 'cbs', 'L', None, 'pv')])
+    Opt('int', 'dep', 'D', 3), Opt('int', 'drop', 'LDX', [b'1']), Opt('int', 'cbi', '', 2, 'pvw'), Opt('str', 'cbs', 'L', None, 'pv'),
+    Opt('int', 'si', 'S'), Opt('str', 'ss', 'S'), Opt('float', 'sf', 'S'), Opt('bool', 'sb', 'S')])      # 'simple' options: the value lives in the caller's variable
 TEXT = (b'i = 7 il += {3, 4} s = "new" sl = {x, y, z} f = 2.5 b = off fl = {1, 2} bl += {no}\n'
         b'# note\nsec { x = 2 y = z in "t 1" { z += {r} } in t2 { } }\nm { x = 2 } m { sl = {} } mt a { x = 3 } mt "b c" { s = u } mt a { }\n'
         b'kv { k1 = v1 k2 = v2 k0 = w } fn(a, "b c") p = pv pl = {p1, p2} dep = 4 drop = {5} cbi = 9 cbs = {m, n}\n')
@@ -101,6 +102,14 @@ def workloads(root):
                                   'oprint A/sec'])
     W['free-form'] = (0, ['init A M1 0', 'parse_buf A ' + E(b'kv { a = 1 b = 2 c = 3 a = 4 }'), 'parse_buf A ' + E(b'kv { d = 5 }'),
                           'setstr A %s %s' % (E('kv|a'), E('z'))])
+    W['simple-options'] = (0, ['init A M1 0', 'setstr A %s %s' % (E('ss'), E('original')), 'setmulti A %s 2 %s %s' % (E('ss'), E('first'), E('second')),
+                               'setmulti A %s 2 %s %s' % (E('si'), E('3'), E('x')), 'setopt A/ss ' + E('viatext'), 'setopt A/si ' + E('6'),
+                               'parse_buf A ' + E(b'ss = parsed si = 4 sf = 2.5 sb = on ss = again'), 'setint A %s 5' % E('si'), 'setstr A %s %s' % (E('ss'), E('last')),
+                               'osetmulti A/ss 1 ' + E('bulk'), 'print A'])
+    # option names that are paths: every step is looked up (and copied) before the value is stored
+    W['parse-path-names'] = (0, ['init A M1 0', 'parse_buf A ' + E(b'mt a { } sec|x = 5 "mt=a|x" = 6 sec|in t { } "sec|in=t|z" = {w} "sec|in=t|z" += {v}')])
+    W['parse-path-names-ignore'] = (CFGF['IGNORE_UNKNOWN'], ['init A M1 %d' % CFGF['IGNORE_UNKNOWN'],
+                                                             'parse_buf A ' + E(b'mt a { } sec|x = 5 zz|y = 1 "mt=a|x" = 6 sec|in t { } "sec|in=t|z" += {v} "mt=q|x" = 2 i = 3')])
     W['two-contexts'] = (0, ['init A M1 0', 'init B M1 %d' % CFGF['NOCASE'], 'parse_buf A ' + E(b'i = 1 m { }'), 'parse_buf B ' + E(b'I = 2 M { X = 3 }'),
                              'free A', 'parse_buf B ' + E(b'mt q { }')])
     return W
